@@ -36,6 +36,32 @@ TIES = {
    'bp-not-form': ed(DM, ("    return '.' not in domain", "    return not ('.' in domain)")),
    'bp-comments-reorder': ed(DM, ("def is_dotless_domain(domain):\n    return '.' not in domain\n", "def is_dotless_domain(domain):\n    '''no dot at all'''\n    # RFC 7085\n    return '.' not in domain\n")),
   }},
+ 'gettexthdr': {
+  'translators': ['gettexthdr'], 'module': 'I18n.Props.C15Tie', 'tests': ['tests/test_gettext.py'],
+  'edits': {
+   'ph-strip-all-whitespace': ed(GT, ("value = values[0].strip(' \\t')", "value = values[0].strip()")),
+   'ph-strip-blank-only': ed(GT, ("value = values[0].strip(' \\t')", "value = values[0].strip(' ')")),
+   'ph-lstrip': ed(GT, ("value = values[0].strip(' \\t')", "value = values[0].lstrip(' \\t')")),
+   'ph-no-strip': ed(GT, ("value = values[0].strip(' \\t')", "value = values[0]")),
+   'ph-rsplit-colon': ed(GT, ("key, *values = line.split(':', 1)", "key, *values = line.rsplit(':', 1)")),
+   'ph-split-all-colons': ed(GT, ("key, *values = line.split(':', 1)", "key, *values = line.split(':')")),
+   'ph-keep-final-empty-line': ed(GT, ("    if lines[-1] == '':\n        lines.pop()\n    for line in lines:\n        key, *values", "    for line in lines:\n        key, *values")),
+   'ph-pop-unconditionally': ed(GT, ("    if lines[-1] == '':\n        lines.pop()\n    for line in lines:\n        key, *values", "    lines.pop()\n    for line in lines:\n        key, *values")),
+   'ph-first-line-test': ed(GT, ("    if lines[-1] == '':\n        lines.pop()\n    for line in lines:\n        key, *values", "    if lines[0] == '':\n        lines.pop()\n    for line in lines:\n        key, *values")),
+   'ph-name-check-dropped': ed(GT, ("        if values and is_valid_field_name(key):", "        if values:")),
+   'ph-stray-yields-key': ed(GT, ("            yield {key: value}\n        else:\n            yield line", "            yield {key: value}\n        else:\n            yield key")),
+   'ph-field-swapped': ed(GT, ("            yield {key: value}", "            yield {value: key}")),
+   'ph-field-name-pattern': ed(GT, ("is_valid_field_name = re.compile(r'^[\\x21-\\x39\\x3B-\\x7E]+$').match", "is_valid_field_name = re.compile(r'^[\\x21-\\x7E]+$').match")),
+   'ph-splitlines': ed(GT, ("    lines = s.split('\\n')\n    if lines[-1] == '':", "    lines = s.splitlines()\n    if lines and lines[-1] == '':")),
+   # behaviour-preserving
+   'bp-rename': ed(GT, ("    lines = s.split('\\n')\n    if lines[-1] == '':\n        lines.pop()\n    for line in lines:\n        key, *values = line.split(':', 1)\n        if values and is_valid_field_name(key):\n            assert len(values) == 1\n            value = values[0].strip(' \\t')\n            yield {key: value}\n        else:\n            yield line",
+                            "    pieces = s.split('\\n')\n    if pieces[-1] == '':\n        pieces.pop()\n    for piece in pieces:\n        name, *rest = piece.split(':', 1)\n        if rest and is_valid_field_name(name):\n            assert len(rest) == 1\n            body = rest[0].strip(' \\t')\n            yield {name: body}\n        else:\n            yield piece")),
+   'bp-no-assert': ed(GT, ("            assert len(values) == 1\n", "")),
+   'bp-inline-value': ed(GT, ("            value = values[0].strip(' \\t')\n            yield {key: value}", "            yield {key: values[0].strip(' \\t')}")),
+   'bp-inverted-test': ed(GT, ("        if values and is_valid_field_name(key):\n            assert len(values) == 1\n            value = values[0].strip(' \\t')\n            yield {key: value}\n        else:\n            yield line", "        if not (values and is_valid_field_name(key)):\n            yield line\n        else:\n            assert len(values) == 1\n            value = values[0].strip(' \\t')\n            yield {key: value}")),
+   'bp-continue-form': ed(GT, ("        if values and is_valid_field_name(key):\n            assert len(values) == 1\n            value = values[0].strip(' \\t')\n            yield {key: value}\n        else:\n            yield line", "        if values and is_valid_field_name(key):\n            assert len(values) == 1\n            value = values[0].strip(' \\t')\n            yield {key: value}\n            continue\n        yield line")),
+   'bp-comments': ed(GT, ("    lines = s.split('\\n')\n    if lines[-1] == '':", "    # the lines of a header\n    lines = s.split('\\n')\n    # a final newline terminates the last line:\n    if lines[-1] == '':")),
+  }},
 }
 tie_edits.TIES.update(TIES)
 
